@@ -214,6 +214,67 @@ def to_events(ops):
   return ev
 
 
+def reuse_cases():
+  """one callback instance writes several records, as a station does: a call that fails part-way (serializer
+  fault, interruption, failing write) publishes nothing - neither at once nor as part of what a later
+  successful call publishes ("on success the destination holds exactly the serialized record")"""
+  from openhtf.output import callbacks
+  bad = []
+  n = 0
+  for kind in ('serializer', 'interrupt', 'write'):
+    for fail_after in (1, 2):
+      calls = [0]
+      exc = dict(serializer=SerializerFault, interrupt=KeyboardInterrupt, write=OSError)[kind]
+
+      class FailingAtomic(callbacks.Atomic):
+        def write(self, data):
+          self.nw = getattr(self, 'nw', 0) + 1
+          if kind == 'write' and calls[0] == 1 and self.nw == fail_after + 1:
+            raise OSError('write fails')
+          return callbacks.Atomic.write(self, data)
+
+      class Chunked(callbacks.OutputToFile):
+        @staticmethod
+        def serialize_test_record(test_rec):
+          calls[0] += 1
+          k = calls[0]
+          for i in range(3):
+            if kind != 'write' and k == 1 and i == fail_after:
+              raise exc('serializer raises after %d chunks' % i)
+            yield '{run%d-chunk%d}' % (k, i)
+
+        @staticmethod
+        def open_file(filename):
+          return FailingAtomic(filename)
+      scratch = tempfile.mkdtemp(prefix='vf-c17r-')
+      try:
+        tempfile.tempdir = scratch
+        dest = os.path.join(scratch, 'dut.out')
+        cb = Chunked(os.path.join(scratch, 'dut.out'))
+        seen = []
+        for k in (1, 2, 3):
+          try:
+            cb(None)
+            err = None
+          except BaseException as e:  # pylint: disable=broad-except
+            err = type(e).__name__
+          content = open(dest, 'rb').read() if os.path.exists(dest) else None
+          seen.append((err, content))
+        n += 1
+        want = [(exc.__name__, None), (None, b'{run2-chunk0}{run2-chunk1}{run2-chunk2}'),
+                (None, b'{run3-chunk0}{run3-chunk1}{run3-chunk2}')]
+        if seen != want:
+          what = 'the call that failed published something' if seen[0] != want[0] else \
+              'a successful call after a failed one does not publish exactly its own serialized record'
+          bad.append(('OutputToFile: one callback instance used for three records, the first call failing (%s): %s'
+                      % (kind, what), dict(kind=kind, fail_after=fail_after,
+                                           seen=[(e, c.decode() if c is not None else None) for e, c in seen])))
+      finally:
+        tempfile.tempdir = None
+        shutil.rmtree(scratch, ignore_errors=True)
+  return n, bad
+
+
 def main(chk):
   res = tlc.must_pass(tlc.run('AtomicPublish', 'AtomicPublish_mc.cfg', coverage=True, workers=1), 'AtomicPublish design')
   chk.add_tlc('AtomicPublish design', res)
@@ -290,6 +351,10 @@ def main(chk):
     chk.violation('a recorded operation sequence is not understood by AtomicPublish_trace.tla', by_id[r])
   for sig, det in crash_bad:
     chk.violation(sig, det)
+  nre, rebad = reuse_cases()
+  for sig, det in rebad:
+    chk.violation(sig, det)
+  chk.traces += nre
   chk.traces += len(traces) + ncrash
   chk.nontrivial += len(traces) + ncrash
   chk.sample(dict(trace=traces[1], meta=meta[1]))
